@@ -299,6 +299,16 @@ def run_polars_scan(rep, rng, n):
         rep.count("polars:unavailable")
         return
     from pandera.config import get_config_context
+    # the recorded crash of `sample=` on the polars backend (K_C20_polarsSampleCrash), demonstrated on every run
+    try:
+        pap.DataFrameSchema({"a": pap.Column(int)}).validate(pl.DataFrame({"a": [1, 2, 3]}), sample=1)
+        rep.count("scan:polars:sample:ok")
+    except (pap.errors.SchemaError, pap.errors.SchemaErrors):
+        rep.count("scan:polars:sample:schema-error")
+    except Exception as e:  # noqa: BLE001
+        rep.property_failure({"backend": "polars", "call": "validate(sample=1)"},
+                             f"polars: internal exception escapes validate: {type(e).__name__}: {str(e)[:80]} at {leak_site(e)}",
+                             region=leak_region(e))
     for i in range(n):
         c = c03.gen_case(rng, drop_rate=0.2) if i % 2 else P.gen_case(rng)
         S, D = c["schema"], c["frame"]
